@@ -250,7 +250,32 @@ static void one_case(char* line) {
 }
 
 #undef main      /* Cello.h turns `main` into a macro that creates a collector; each case makes its own */
+#include <sys/personality.h>
+#include <sys/mman.h>
+/* The slot order of the registry depends on the addresses malloc hands out.  To make every case
+   behave the same alone (replay, shrinking) and inside a batch: address-space randomisation off
+   (re-exec once), and the parent's heap is identical at every fork (line buffer and stdout
+   buffer live outside the malloc heap). */
 int main(int argc, char** argv) {
-  run_all_cases(one_case);
+  if (!getenv("LC_NOASLR")) {
+    int p = personality(0xffffffff);
+    setenv("LC_NOASLR", "1", 1);
+    if (p != -1 && !(p & ADDR_NO_RANDOMIZE) && personality(p | ADDR_NO_RANDOMIZE) != -1)
+      execv("/proc/self/exe", argv);
+  }
+  size_t cap = 1 << 22;
+  char* line = mmap(NULL, cap, PROT_READ | PROT_WRITE, MAP_PRIVATE | MAP_ANONYMOUS, -1, 0);
+  char* obuf = mmap(NULL, 1 << 16, PROT_READ | PROT_WRITE, MAP_PRIVATE | MAP_ANONYMOUS, -1, 0);
+  char* ibuf = mmap(NULL, 1 << 16, PROT_READ | PROT_WRITE, MAP_PRIVATE | MAP_ANONYMOUS, -1, 0);
+  if (line == MAP_FAILED || obuf == MAP_FAILED || ibuf == MAP_FAILED) return 2;
+  setvbuf(stdout, obuf, _IOFBF, 1 << 16);
+  setvbuf(stdin, ibuf, _IOFBF, 1 << 16);
+  if (getenv("H_NOFORK")) H_NOFORK = 1;
+  if (getenv("H_TIMEOUT")) H_TIMEOUT = atoi(getenv("H_TIMEOUT"));
+  while (fgets(line, (int)cap, stdin)) {
+    size_t n = strlen(line);
+    if (n > 0 && line[n-1] == '\n') line[n-1] = 0;
+    run_case_forked(one_case, line);
+  }
   return 0;
 }
